@@ -1,11 +1,13 @@
 #!/bin/bash
 # Every registered thorough command once (VERIF_SEED as given, default 20260927).  Stops at the first
-# VIOLATION / harness error.  usage: tools/thorough_sweep.sh [jobs]
+# VIOLATION / harness error.  usage: tools/thorough_sweep.sh [jobs] [check ids in the order wanted ...]
 cd "$(dirname "$0")/.."
 # under `vp run --with-repo` the snapshot of /repo is the tree to check
 [ -n "$VP_RUN_REPO" ] && export VERIF_REPO="$VP_RUN_REPO"
 JOBS=${1:-16}
-for c in C06 C05 C03 C13 C12 C15 C01 C02 C10 C09 C20 C14 C04 C08 C17 C18 C11 C16 C07; do
+shift
+LIST=${@:-C06 C05 C03 C13 C12 C15 C01 C02 C10 C09 C20 C14 C04 C08 C17 C18 C11 C16 C07}
+for c in $LIST; do
   t0=$(date +%s)
   out=$(VERIF_REPLAY_DIR=$PWD/thorough_replays ./check $c --tier thorough --jobs $JOBS 2>&1 | grep -v "^KNOWN-FINDING" | tail -4)
   echo "$(date +%H:%M) $(( $(date +%s) - t0 ))s $(echo "$out" | tail -1)"
